@@ -2,6 +2,7 @@ SPECIFICATION Spec
 CONSTANTS
   CwdVariant = "code"
   StatGuard = TRUE
+  CcStopsAtExisting = TRUE
   MaxFlags = 4
   MaxStr = 3
   Emit = TRUE
